@@ -20,7 +20,7 @@ ASSUMPTIONS = [
 NSHARDS = {"quick": 64, "thorough": 128}
 BUDGET_S = {"quick": 240, "thorough": 2400}
 MIN_HITS = {
-    'quick': {"program": 146311, "exh": 145001, "cond": 230, "random": 960, "ref_ok": 125387, "ref_fail": 20874, "op_148": 4302, "op_153": 218, "op_128": 328, "op_113": 44, "op_100": 460},
+    'quick': {"program": 146343, "exh": 145001, "cond": 230, "random": 960, "ref_ok": 125419, "ref_fail": 20874, "op_148": 4302, "op_153": 218, "op_128": 328, "op_113": 44, "op_100": 460},
     'thorough': {"program": 539362, "exh": 78340, "cond": 222, "random": 460800, "ref_ok": 350901, "ref_fail": 188451, "op_148": 41827, "op_153": 28434, "op_128": 21555, "op_113": 22450, "op_100": 151784},
 }
 
@@ -186,6 +186,11 @@ def cases(ctx):
             yield case_of([("op", 97)] * (2 * n) + [("op", 82)], "long")
             yield case_of([("op", 0)] + [("op", 139)] * n, "long")
             yield case_of([("op", 81)] + [("op", 99), ("op", 81), ("op", 104)] * (n // 2), "long")
+    # more than 1000 (and 10000) items on the stack / split between stack and alt stack: no item-count limit after Genesis
+    if S % 8 == 2:
+        for n in (999, 1000, 1001, 1500):
+            yield case_of([("op", 81)] * n + [("op", 116)], "deep_stack")
+            yield case_of([("op", 81), ("op", 107)] * (n // 2 + 1) + [("op", 82)] * (n // 2 + 1) + [("op", 116), ("op", 108)], "deep_stack")
     # elements whose SIZE falls on every script-number length class boundary (built by doubling; compared on the final stack only)
     if S % 8 == 1:
         for L in (127, 128, 255, 256, 32767, 32768, 65535, 65536, 8388607, 8388608):
@@ -273,7 +278,10 @@ def judge(ctx, case):
     if ref["trace"]:
         ctx.nontrivial()
     ctx.hit("ref_ok" if ref["ok"] else "ref_fail")
-    r = ctx.call({"op": "interp", "script": case["hex"], "max_steps": len(toks) + 2, "trace": True, "mode": "step"})
+    rq = {"op": "interp", "script": case["hex"], "max_steps": len(toks) + 2, "trace": True, "mode": "step"}
+    if case.get("tag") == "deep_stack":
+        rq["guard"] = 4 << 30  # the per-step trace of a 3000-item stack is quadratic in size
+    r = ctx.call(rq, watchdog=600 if case.get("tag") == "deep_stack" else None)
     ctx.ev()
     if "ok" not in r or "step" not in r["ok"]:
         ctx.viol("interpreter could not be driven (%s)" % [q for q in ("err", "panic", "death", "make_panic") if q in r or q in r.get("ok", {})][:1], {"hex": case["hex"][:200], "resp": str(r)[:300]})
